@@ -386,6 +386,11 @@ pub fn install_panic_hook() {
             }
         };
         let in_library = file.contains("datasketches/src") || lib_frame;
+        // a library function inlined into the harness has no frame of its own: name it by its source file
+        let func = match (lib_frame, file.find("datasketches/src/")) {
+            (false, Some(pos)) => format!("{} (inlined)", &file[pos..]),
+            _ => func,
+        };
         if !QUIET.with(|q| q.get()) {
             eprintln!("panic at {}:{}: {} [{}]", file, line, msg, func);
         }
@@ -474,6 +479,8 @@ pub struct Violation {
 pub struct Ctx {
     pub property: String,
     pub tier: Tier,
+    /// where the shard writes its result (the hang witness goes next to it)
+    pub out_path: Option<String>,
     pub seed: u64,
     pub shard: usize,
     pub nshards: usize,
@@ -497,6 +504,7 @@ impl Ctx {
         Ctx {
             property: property.to_string(),
             tier,
+            out_path: None,
             seed,
             shard,
             nshards,
@@ -740,5 +748,62 @@ pub fn special_f32(rng: &mut Rng) -> f32 {
         6 => f32::NEG_INFINITY,
         7 => f32::from_bits(rng.below(1 << 20) as u32 + 1),
         _ => (rng.below(64) as f32) / 4.0 - 3.0,
+    }
+}
+
+
+/// Hang guard (C14 "never loops"): the monitor publishes which call is in flight; a watchdog thread turns a call
+/// that is still running after `limit` into a witness file and ends the process with exit code 86. The driver
+/// replays the witness alone and reports a violation only if the overrun reproduces (a starved shard on a
+/// loaded machine is inconclusive, not a violation).
+pub mod hang {
+    use std::sync::atomic::{AtomicBool, AtomicU64, Ordering};
+    use std::sync::Mutex;
+    use std::time::{Duration, Instant};
+
+    static SEQ: AtomicU64 = AtomicU64::new(0);
+    static ARMED: AtomicBool = AtomicBool::new(false);
+    static CUR: Mutex<(String, Vec<u8>)> = Mutex::new((String::new(), Vec::new()));
+    pub const EXIT_CODE: i32 = 86;
+
+    pub fn arm(entry: &str, input: &[u8]) {
+        if let Ok(mut g) = CUR.lock() {
+            g.0.clear();
+            g.0.push_str(entry);
+            g.1.clear();
+            g.1.extend_from_slice(input);
+        }
+        SEQ.fetch_add(1, Ordering::SeqCst);
+        ARMED.store(true, Ordering::SeqCst);
+    }
+
+    pub fn disarm() {
+        ARMED.store(false, Ordering::SeqCst);
+        SEQ.fetch_add(1, Ordering::SeqCst);
+    }
+
+    /// `write_witness(entry, input, seconds)` must write the witness where the driver looks for it.
+    pub fn start_watchdog(limit: Duration, write_witness: impl Fn(&str, &[u8], u64) + Send + 'static) {
+        std::thread::spawn(move || {
+            let mut seen = u64::MAX;
+            let mut since = Instant::now();
+            loop {
+                std::thread::sleep(Duration::from_millis(200));
+                let seq = SEQ.load(Ordering::SeqCst);
+                if !ARMED.load(Ordering::SeqCst) || seq != seen {
+                    seen = seq;
+                    since = Instant::now();
+                    continue;
+                }
+                if since.elapsed() >= limit {
+                    let g = match CUR.lock() {
+                        Ok(g) => g,
+                        Err(p) => p.into_inner(),
+                    };
+                    write_witness(&g.0, &g.1, since.elapsed().as_secs());
+                    std::process::exit(EXIT_CODE);
+                }
+            }
+        });
     }
 }
